@@ -69,6 +69,14 @@ func (c *Ctx) Pick(q, t int) int {
 	return q
 }
 
+// PickInts is Pick for lists.
+func (c *Ctx) PickInts(q, t []int) []int {
+	if c.Thorough() {
+		return t
+	}
+	return q
+}
+
 func NewCtx(id, tier string, seed int64) *Ctx {
 	return &Ctx{ID: id, Tier: tier, Seed: seed, Start: time.Now(), viol: map[string]*violation{}, violCount: map[string]int{},
 		Cov: map[string]any{}, distinct: map[string]struct{}{}, inconc: map[string]int{}}
